@@ -39,6 +39,17 @@ def write_replay(prop, job, o, native_res, extra=None):
 
 
 def main(argv):
+    try:
+        return _main(argv)
+    except SystemExit:
+        raise
+    except BaseException as e:
+        import traceback; traceback.print_exc()
+        print('UNDECIDED internal error in the checking machinery: %r' % (e,))
+        return 2
+
+
+def _main(argv):
     if argv and argv[0] == '--setup':
         return setup()
     if len(argv) >= 3 and argv[1] == '--replay':
@@ -106,7 +117,7 @@ def check(prop, tier, seed):
             static += sf(src)
     except L.ExtractionBreak as e:
         print('UNDECIDED property=%s extraction break: %s' % (prop, e))
-        write_evidence(prop, tier, seed, t0, [], [], [], [], ['extraction break: %s' % e], spec, undecided=True)
+        write_evidence(prop, tier, seed, t0, [], {}, [], [], ['extraction break: %s' % e], spec)
         return 2
 
     known = [k for k in load_known() if k.get('property') == prop and k.get('status', 'finding') == 'finding']
